@@ -202,7 +202,10 @@ SRet ==
        \cup (IF ok /\ call.op = "read" /\ e.pay # [i \in 1..call.n |-> MemAt(exp, blocks[i])]
                 /\ ~\E i \in 1..call.n : MemAt(exp, blocks[i]) = -1
              THEN (IF Corrupt \/ seen \cap {"dead", "spi"} # {}
-                   THEN (IF cfg.crc THEN {<<"C13", "CorruptAccepted", "damaged data returned as good although CRC is enabled">>} ELSE {})
+                   \* (a line stuck low behind the start token gives an all-zero block with the check bytes 0x0000 - a valid
+                   \*  CRC-16 code word: not a corruption the CRC can detect)
+                   THEN (IF cfg.crc /\ ~("dead" \in seen /\ "zeros" \in DOMAIN e
+                                          /\ \A i \in 1..call.n : e.pay[i] # MemAt(exp, blocks[i]) => e.zeros[i]) THEN {<<"C13", "CorruptAccepted", "damaged data returned as good although CRC is enabled">>} ELSE {})
                    ELSE {<<"C12", "ReadData", "read returned other blocks than the card stores at that address">>})
              ELSE {})
        \cup (IF ok /\ call.op \in {"num_blocks", "num_bytes"} /\ (e.val # cfg.capp \/ e.rem # 0) /\ ~Corrupt /\ ~cfg.weird
